@@ -555,3 +555,8 @@ Proof. apply listing_leaves_perm_table. exact current_table_faithful. Qed.
 From Gen Require Flags.
 Lemma max_graph_depth_from_source : Flags.MAX_GRAPH_DEPTH = Core.Model.MAX_GRAPH_DEPTH.
 Proof. reflexivity. Qed.
+
+(* the number of operation layers the listing visits: the loop guard answers True `loop_safety_passes MAX_GRAPH_DEPTH` times and
+   the root layer consumes one of them *)
+Lemma listed_layers_from_source : Z.of_nat max_layers = (Flags.loop_safety_passes Flags.MAX_GRAPH_DEPTH - 1)%Z.
+Proof. reflexivity. Qed.
